@@ -7,18 +7,25 @@
    * park / unpark of the timer thread (crate::verif::thread::{park, park_timeout}, Thread::unpark are not logged):
      under the baton scheduler a thread runs from the end of one hooked operation to the beginning of the next
      without interruption, so `unpark` is executed together with the `wakeup.take()` that returned Some (A8 / R4 / TU
-     follow their take at once), `now()`, the heap peek / push and `park` follow the timer thread's previous event at
-     once (the silent closure `tsilent`), a parked timer thread that is unparked is woken at once (the harness makes
-     it runnable and stores no token), and a timeout wake-up is the first thing that happens when the clock reaches
-     the wake time (so it is taken when the timer thread's next event arrives);
-   * the virtual clock: the scenario logs it with every API event (add.call / del.call / fire / now); without injected
-     stalls time only passes while every thread is blocked, so between these events the clock stands still
-     (the acceptor is only used for the variants without MAYV_STALL);
+     follow their take at once), and `now()`, the heap peek / push and `park` follow the timer thread's previous
+     event at once (the silent closure `tsilent`).  A parked timer thread that is unparked is woken at once (the
+     harness makes it runnable and stores no token); a park that times out ends when the clock reaches the wake
+     time - which the acceptor learns from the next logged clock value (`timeout_due`), from the timer thread's
+     next event (`timeout_wake`), or not at all before an unpark arrives (both orders are kept: `unpark_by`).
+   * the virtual clock: the scenario logs it with its API events only (add.call / del.call / fire / now).  Between
+     two logged values the clock can advance unseen (an injected stall, or the polling quantum of the harness), so
+     the model clock is a LOWER BOUND of the virtual clock, exact at every logged value.  A deadline that the code
+     treats as due tells that the clock had reached it (`raise_to`, using the model's TClock action); a deadline that
+     it treats as not due is consistent with any lower bound.  Where the model clock cannot decide, both outcomes are
+     kept and the next event prunes the wrong one.
    * the heap (it lives under a mutex that is not hooked): which of several minimal heap entries a pop takes, and when
      an adder that found the heap mutex held by the timer thread (between its pop and its `in_use.store(0)`) finally
-     pushes.  Both are resolved by carrying a SET of candidate model states: every candidate is a reachable model
-     state (accept_all_reach), an event prunes the candidates that cannot take it, the trace is rejected when no
-     candidate is left. *)
+     pushes (`push_branch`).
+
+   All three are resolved by carrying a SET of candidate model states: every candidate is a reachable model state
+   (accept_all_reach), an event prunes the candidates that cannot take it, the trace is rejected when no candidate
+   is left.  With the hooks asked for in the work-package report (thread.park / thread.wake / thread.unpark events
+   and the clock in every record) the candidate sets collapse to single states. *)
 From Coq Require Import List Arith NArith ZArith Bool Lia.
 Import ListNotations.
 Require Import MayV.Rt.TimerThread MayV.Rt.TimerThreadInv.
